@@ -140,6 +140,33 @@ def crtT (t : IntTy) (a1 m1 a2 m2 : Int) : Except Panic (Option Int) :=
         | .error e => .error e
         | .ok r => .ok (some r)
 
+/-! ### The property's domain at an arbitrary signed type ("the mathematical intermediate values fit the integer type")
+
+The property names a `2^20` box for `i64`; its last sentence defines the domain for every other instantiation.  The
+predicates below decide it for ONE concrete input, in terms of the mathematics only (gcd, lcm, the size bound of the
+Bézout coefficients `|x|,|y| ≤ (|c|/g)·max(|a|,|b|)/g` that `egcd_bound` proves), so the driver can give a definite `S`
+for `i8 … i128` up to the overflow threshold of each type.  `Props/C11.lean` (`egcdT_dom`, `crtT_dom`) proves that on this
+domain the checked instantiation never reports an overflow and equals the unbounded function. -/
+
+/-- `|z| ≤ MAX` of the type: `z`, `-z`, `|z|` all representable (the minimum of a signed type is excluded). -/
+def absFits (t : IntTy) (z : Int) : Bool := -t.maxVal ≤ z && z ≤ t.maxVal
+
+/-- Domain of `egcd::<t>(a, b, c)`: a signed type, operands of magnitude `≤ MAX`, not both coefficients zero, and - when a
+    solution exists - `(|c|/g)·max(|a|,|b|) ≤ g·MAX`, the bound on every coefficient and intermediate product. -/
+def domEgcd (t : IntTy) (a b c : Int) : Bool :=
+  t.signed && absFits t a && absFits t b && absFits t c && !(a = 0 && b = 0) &&
+  (c.natAbs % Int.gcd a b ≠ 0 ||
+    (c.natAbs / Int.gcd a b) * max a.natAbs b.natAbs ≤ Int.gcd a b * t.maxVal.toNat)
+
+/-- Domain of `crt::<t>(a1, m1, a2, m2)`: positive moduli `≤ MAX`, reduced residues, and - when the congruences are
+    compatible - the solver's bound for `m1·x − m2·y = a2 − a1`, room for `x mod (m2/g) + m2/g`, and a representable lcm
+    (the answer lies in `[0, lcm)`). -/
+def domCrt (t : IntTy) (a1 m1 a2 m2 : Int) : Bool :=
+  t.signed && 1 ≤ m1 && 1 ≤ m2 && 0 ≤ a1 && a1 < m1 && 0 ≤ a2 && a2 < m2 && m1 ≤ t.maxVal && m2 ≤ t.maxVal &&
+  ((a2 - a1).natAbs % Int.gcd m1 m2 ≠ 0 ||
+    (((a2 - a1).natAbs / Int.gcd m1 m2) * max m1.natAbs m2.natAbs ≤ Int.gcd m1 m2 * t.maxVal.toNat &&
+      2 * (m2 / (Int.gcd m1 m2 : Int)) ≤ t.maxVal && (Int.lcm m1 m2 : Int) ≤ t.maxVal))
+
 /-! ### Executable specifications (what the user relies on) -/
 
 /-- gcd by definition: the largest common divisor found by downward search (0 for (0,0)). -/
